@@ -38,7 +38,7 @@ let any = ZA.of_int (-8)
 let rest = ZA.of_int (-10)
 let nonzero = ZA.of_int (-11)
 
-(* -13: what remains is A ++ B, A strictly increasing and inside the set after the marker, B a permutation of A *)
+(* -(2^62)-13: what remains is A ++ B, A strictly increasing and inside the set after the marker, B a permutation of A *)
 let half_ok (restl : ZA.t list) (set : ZA.t list) : bool =
   let len = List.length restl in
   if len mod 2 <> 0 then false else begin
@@ -52,7 +52,7 @@ let half_ok (restl : ZA.t list) (set : ZA.t list) : bool =
 let rec spec_match' impl sp =
   match impl, sp with
   | _, [y] when ZA.equal y rest -> true
-  | _, y :: set when ZA.equal y (ZA.of_int (-13)) -> half_ok impl set
+  | _, y :: set when ZA.equal y (ZA.of_string "-4611686018427387917") -> half_ok impl set
   | [], [] -> true
   | x :: a, y :: b -> (ZA.equal y wild || ZA.equal x y) && spec_match' a b
   | _, _ -> false
